@@ -188,7 +188,11 @@ func runC12(c *Ctx) {
 				r.Check("C12-K5", u.Name+": for f < 0 all bits are inverted", u.Pos(s.Pos), tok == "=" && t == "^u", "u "+tok+" "+t)
 			}
 		}
-		r.Min("C12-K5", n, 2, "float encoder branches")
+		// both transformations exist and are selected by the *float comparison* of the argument with zero: a test of the
+		// sign bit puts -0.0 (equal to +0.0 as a score) on the negative side, and the order of the codes no longer is the
+		// order of the scores
+		r.Check("C12-K5", u.Name+": the two transformations are selected by comparing the float with 0", "", n >= 2,
+			fmt.Sprintf("%d of the assignments to the code lie under f >= 0 / f < 0 (a bit test does not decide the sign of -0.0 the way the comparison does)", n))
 	}
 	if u := c.unit("C12-K5", "rockredis.decodeCmpUintToFloat"); u != nil {
 		n := 0
@@ -488,4 +492,75 @@ func c12StartKeyIncluded(c *Ctx, rule string) {
 		r.Check(rule, construct, u.Pos(cs.S.Pos), int(v)&lopen == 0, "range type "+u.C.Term(cs.S.Call.Args[2])+" is open on the left: the element whose name is empty is skipped")
 	}
 	r.Min(rule, n, 5, "whole-collection iterations")
+}
+
+// K8: an element key is built on the collection's *version key* (name + generation), never on the bare name: the
+// generation is what keeps a re-created collection apart from the left-overs of its predecessor, and what keeps `k`
+// apart from a key whose name merely continues it. Every call of an element-key encoder (first parameter `table`, second
+// `key`: hEncodeHashKey, sEncodeStartKey, zEncodeStopSetKey, lEncodeListKey, ...) from a function that holds the key
+// information of a collection (a value with a VerKey field) passes a term rooted in that VerKey as the second argument.
+func c12K8(c *Ctx) {
+	r := c.R
+	r.Clause("C12-K8", "element keys are built on the version key of the collection")
+	type enc struct {
+		name string
+		idx  int
+	}
+	var encs []enc
+	for _, fn := range c.P.Funcs() {
+		if load.ShortPkg(fn.Pkg.PkgPath) != "rockredis" || fn.Decl.Recv != nil || fn.Decl.Type.Params == nil {
+			continue
+		}
+		n := fn.Decl.Name.Name
+		if !(strings.HasPrefix(n, "hEncode") || strings.HasPrefix(n, "sEncode") || strings.HasPrefix(n, "zEncode") || strings.HasPrefix(n, "lEncode") || strings.HasPrefix(n, "encodeBitmap")) {
+			continue
+		}
+		var names []string
+		for _, f := range fn.Decl.Type.Params.List {
+			for _, id := range f.Names {
+				names = append(names, id.Name)
+			}
+		}
+		for i := 0; i+1 < len(names); i++ {
+			if names[i] == "table" && names[i+1] == "key" {
+				encs = append(encs, enc{fn.Name, i + 1})
+			}
+		}
+	}
+	r.Min("C12-K8", len(encs), 10, "element-key encoders")
+	n := 0
+	for _, e := range encs {
+		for _, sw := range c.W.AllSites(an.Call(e.name), "", []string{"rockredis"}) {
+			u := sw.U
+			// does the function hold key information? (a local or parameter with a VerKey field)
+			holder := ""
+			for _, s := range u.Sites {
+				if s.Kind == flow.SStore && s.Local != nil {
+					if st, ok := s.Local.Type().Underlying().(*types.Struct); ok {
+						for i := 0; i < st.NumFields(); i++ {
+							if st.Field(i).Name() == "VerKey" {
+								holder = u.C.TermOfObj(s.Local)
+							}
+						}
+					}
+				}
+			}
+			if holder == "" {
+				continue // works on a version key handed in by its caller
+			}
+			n++
+			a := u.ArgTerm(sw.S, e.idx)
+			if ds := u.Match(an.LocalStore(a)); len(ds) == 1 && ds[0].RHS != nil {
+				a = u.C.Term(ds[0].RHS)
+			}
+			r.Check("C12-K8", u.Name+": "+e.name+" gets the version key", u.Pos(sw.S.Pos), strings.HasSuffix(a, ".VerKey"),
+				"second argument "+a+" (the function holds "+holder+".VerKey)")
+		}
+	}
+	r.Min("C12-K8", n, 20, "element-key encoder calls in functions holding key information")
+}
+
+func init() {
+	old := registry["C12"].Run
+	registry["C12"].Run = func(c *Ctx) { old(c); c12K8(c) }
 }
